@@ -164,6 +164,15 @@ def check_sort(case, ctx):
     from esutil.algorithm import quicksort
     vals = _values(case)
     data = _container(case, vals, ctx)
+    if len(vals) % 3 == 0:
+        # an earlier sort in the same process that failed part-way (records that cannot be ordered turn up deep in
+        # the data): the sort judged below must not inherit anything from it
+        keys = np.random.Generator(np.random.PCG64(len(vals))).permutation(400)[:200].tolist()
+        junk = [(int(k), i) for i, k in enumerate(keys)]
+        junk[57] = (junk[140][0], None)      # two records with equal key whose labels cannot be compared
+        fr = sut(quicksort, junk)
+        if not isinstance(fr, Raised):
+            ctx.count("unorderable-list-sorted-without-error")
     r = must(quicksort, data)
     require(r is None, "quicksort is in-place and must return None, got %r", type(r))
     out = data.tolist() if isinstance(data, np.ndarray) else data
